@@ -890,6 +890,8 @@ theorem config_zeroH (c : Config α) (hwf : c.wf = some 0) : ZeroH c.inst := by
   · cases h
   · split at h
     · cases h
+    split at h
+    · cases h
     · split at h
       · cases h
       · simp only [mul_zero, Except.ok.injEq] at h
